@@ -273,6 +273,18 @@ def generate(seed, tier="quick"):
             cer["requirement_constraints"].pop(op["drop"]["rc"], None)
             cer["hints"].pop(op["drop"]["hint"], None)
         requests.append({"rid": rid, "start": rnd.choice([0, 0, 0, 1, 2, 7]), "op": op, "cer": cer})
+    if n_requests >= 2 and rnd.random() < 0.12:
+        # result objects must not be shared between evaluations: one evaluation is won by a trailing bare modal mark
+        # (all conditional parts unfulfilled), others evaluate bare indicators - before, after or at the same time
+        loser = rnd.choice(rc)
+        requests[0]["cer"]["requirement_constraints"][loser] = "UNFULFILLED"
+        parts = [("MUSS", ("k", loser)), (rnd.choice(["KANN", "MUSS", "SOLL"]), None)]
+        requests[0]["op"] = {"op": "ahb_eval", "parts": parts, "expr": render_ahb(parts, rnd), "resolve": True,
+                             "text": None}
+        for other in requests[1:]:
+            bare = [(rnd.choice(["MUSS", "SOLL", "KANN", "X"]), None)]
+            other["op"] = {"op": "ahb_eval", "parts": bare, "expr": render_ahb(bare, rnd), "resolve": True, "text": None}
+            other["start"] = rnd.choice([0, 1, 5, 50, 1000])
     if n_requests >= 2 and rnd.random() < 0.3:
         victim = requests[rnd.randrange(1, n_requests)]
         if rnd.random() < 0.5:
